@@ -10,6 +10,7 @@ import Proofs.Lemmas.PipelineLog
 import Proofs.Lemmas.PipelineInvR2
 import Proofs.Lemmas.PipelineTerm
 import Proofs.Lemmas.PipelineInvE
+import Proofs.Lemmas.PipelineInvQ
 namespace Wpull.Pipeline
 
 /-! ## helper lemmas -/
@@ -492,12 +493,13 @@ theorem no_infinite_internal_run {c : Cfg} (hfx : c.fx = Fix.all) {conc0 : Nat} 
 
 /-! ### a second `process()` on the same object -/
 
-/-- reachability over histories with several runs: `restart k` = `concurrency = k; process()` again on the object
-that a returned run left behind -/
-inductive ReachR (c : Cfg) (conc0 : Nat) : St → Prop
-  | init : ReachR c conc0 (initSt conc0)
-  | step {s s' : St} (a : Act) : ReachR c conc0 s → step c s a = some s' → ReachR c conc0 s'
-  | restart {s : St} (k : Nat) : ReachR c conc0 s → s.main = .returned → ReachR c conc0 (restartSt c k s)
+/-- reachability over histories with several runs: `restart k m` = the source gets `m` fresh items,
+`concurrency = k`, and `process()` is called again on the object that a returned run left behind -/
+inductive ReachR (conc0 : Nat) : Cfg → St → Prop
+  | init (c : Cfg) : ReachR conc0 c (initSt conc0)
+  | step {c : Cfg} {s s' : St} (a : Act) : ReachR conc0 c s → step c s a = some s' → ReachR conc0 c s'
+  | restart {c : Cfg} {s : St} (k m : Nat) : ReachR conc0 c s → s.main = .returned →
+      ReachR conc0 { c with n := c.n + m } (restartSt c k s)
 
 theorem restartSt_items_log (c : Cfg) (k : Nat) (s : St) :
     (restartSt c k s).items = s.items ∧ (restartSt c k s).log = s.log := by
@@ -505,15 +507,25 @@ theorem restartSt_items_log (c : Cfg) (k : Nat) (s : St) :
   repeat' split
   all_goals exact ⟨rfl, rfl⟩
 
-theorem inv_reachR {c : Cfg} (hfx : c.fx = Fix.all) {conc0 : Nat} {s : St} (hr : ReachR c conc0 s) :
-    InvN s ∧ InvLs c s ∧ InvE s := by
+theorem invL_mono_n {n n' K : Nat} {items : List Ph} {log : List Ev} (h : InvL n K items log) (hn : n ≤ n') :
+    InvL n' K items log := ⟨h.hin, h.hout, Nat.le_trans h.hlen hn⟩
+
+theorem inv_reachR {conc0 : Nat} {c : Cfg} {s : St} (hr : ReachR conc0 c s) (hfx : c.fx = Fix.all) :
+    InvN s ∧ InvLs c s ∧ InvE s ∧ InvQ c s := by
   induction hr with
-  | init => exact ⟨invN_init conc0, invL_init c.n c.K, invE_init conc0⟩
-  | step a _ hs ih => exact ⟨invN_step hfx ih.1 hs, invL_step ih.1 ih.2.1 hs, invE_step hfx ih.1 ih.2.2 hs⟩
-  | @restart s0 k _ hret ih =>
-    have h := inv_restart hfx k ih.1 ih.2.2 hret
-    have hil := restartSt_items_log c k s0
-    exact ⟨h.1, by simp only [InvLs, hil.1, hil.2]; exact ih.2.1, h.2⟩
+  | init c => exact ⟨invN_init conc0, invL_init c.n c.K, invE_init conc0, invQ_init c conc0⟩
+  | step a _ hs ih =>
+    have ih := ih hfx
+    exact ⟨invN_step hfx ih.1 hs, invL_step ih.1 ih.2.1 hs, invE_step hfx ih.1 ih.2.2.1 hs,
+      invQ_step hfx ih.1 ih.2.2.2 hs⟩
+  | @restart c0 s0 k m _ hret ih =>
+    have hfx0 : c0.fx = Fix.all := hfx
+    have ih := ih hfx0
+    have h := inv_restart hfx0 k ih.1 ih.2.2.1 hret
+    have hil := restartSt_items_log c0 k s0
+    refine ⟨h.1, ?_, h.2, invQ_restart hfx0 k m ih.2.2.2 hret⟩
+    simp only [InvLs, hil.1, hil.2]
+    exact invL_mono_n ih.2.1 (Nat.le_add_right _ _)
 
 /-- **The state a finished run leaves behind is a valid initial state.**  When `process()` has returned — after
 any history of runs on this object — no worker task is alive, `_worker_tasks` is empty, the producer task has
@@ -522,13 +534,13 @@ concurrency `k`: the control invariant and the run-end invariant hold again at t
 everything derived from them — absence of hangs, tasks in order at most once — holds for the new run as well),
 and the new run does not start in the busy loop.  (The condition lock is free in every state of the model: it is
 never held across a suspension; the harness checks `Condition.locked()` after every returned run.) -/
-theorem run_end_is_valid_start {c : Cfg} (hfx : c.fx = Fix.all) {conc0 : Nat} {s : St} (hr : ReachR c conc0 s)
+theorem run_end_is_valid_start {c : Cfg} (hfx : c.fx = Fix.all) {conc0 : Nat} {s : St} (hr : ReachR conc0 c s)
     (hret : s.main = .returned) :
     (s.live = 0 ∧ s.exited = 0 ∧ s.failedW = 0 ∧ s.pstate = .stopped ∧ (s.prod = .finished ∨ s.prod = .cancelled) ∧
       ∀ (i k : Nat), s.items[i]? ≠ some (Ph.run k)) ∧
     ∀ k, InvN (restartSt c k s) ∧ InvE (restartSt c k s) ∧ (restartSt c k s).main ≠ .spin ∧
       ((restartSt c k s).pstate = .running ∧ ((restartSt c k s).unpaused = true ↔ 0 < k)) := by
-  obtain ⟨hn, _, he⟩ := inv_reachR hfx hr
+  obtain ⟨hn, _, he, _⟩ := inv_reachR hr hfx
   obtain ⟨h1, h2, h3, h4, h5⟩ := he.e_ret hret
   refine ⟨⟨h1, h2, h3, h4, h5, fun i k hik => ?_⟩, fun k => ?_⟩
   · have := countRun_pos hik
@@ -551,21 +563,49 @@ theorem run_end_is_valid_start {c : Cfg} (hfx : c.fx = Fix.all) {conc0 : Nat} {s
     exact this
 
 /-- **No hang in any run.**  `no_hang` for histories with any number of runs on the same object. -/
-theorem no_hang_any_run {c : Cfg} (hfx : c.fx = Fix.all) {conc0 : Nat} {s : St} (hr : ReachR c conc0 s)
+theorem no_hang_any_run {c : Cfg} (hfx : c.fx = Fix.all) {conc0 : Nat} {s : St} (hr : ReachR conc0 c s)
     (hq : quiescent s = true) (hp : ¬ paused s) : mainDone s = true :=
-  no_hang_of_inv (inv_reachR hfx hr).1 hq hp
+  no_hang_of_inv (inv_reachR hr hfx).1 hq hp
 
 /-- **Tasks in order, at most once — across runs.**  Over the whole history of an object (several runs), every
 item's events are a prefix of start 0, end 0, …, start K, end K: an item left in the queue by a stopped run and
 processed by the next run is still processed once. -/
 theorem tasks_in_order_at_most_once_any_run {c : Cfg} (hfx : c.fx = Fix.all) {conc0 : Nat} {s : St}
-    (hr : ReachR c conc0 s) (i : Nat) : proj i s.log <+: pre (c.K + 1) := by
-  obtain ⟨_, hl, _⟩ := inv_reachR hfx hr
+    (hr : ReachR conc0 c s) (i : Nat) : proj i s.log <+: pre (c.K + 1) := by
+  obtain ⟨_, hl, _⟩ := inv_reachR hr hfx
   rcases Nat.lt_or_ge i s.items.length with h | h
   · have hp : s.items[i]? = some s.items[i] := List.getElem?_eq_getElem h
     obtain ⟨h1, h2⟩ := hl.hin i _ hp
     rw [h1]; exact expected_prefix h2
   · rw [hl.hout i h]; exact List.nil_prefix
+
+/-- **A run that is not stopped ends only by exhaustion — in every run.**  Over histories with any number of
+`process()` calls on one object (the source possibly refilled between them): if the current run has returned and
+no `stop()` was requested during it, then the source has been polled until it had nothing left (every item it
+holds has been taken), nothing is unfinished, and every item ever taken has passed every task exactly once
+(its events are start 0, end 0, …, start K, end K) — except an item a cancelled producer of an earlier, stopped run
+was holding (phase `held`: dropped; in wpull the URL stays `in_progress` until the next start). -/
+theorem unstopped_run_exhausts_source {c : Cfg} (hfx : c.fx = Fix.all) {conc0 : Nat} {s : St}
+    (hr : ReachR conc0 c s) (hret : s.main = .returned) (hns : s.stopReq = false) :
+    s.items.length = c.n ∧ s.unfinished = 0 ∧
+    ∀ i p, s.items[i]? = some p → (p = .held ∨ (p = .done ∧ proj i s.log = pre (c.K + 1))) := by
+  obtain ⟨_, hl, he, hq⟩ := inv_reachR hr hfx
+  obtain ⟨_, _, _, hst, hprod⟩ := he.e_ret hret
+  have hfin : s.prod = .finished := by
+    rcases hq.r1 hns (by simp [hst]) (by simp [hret]) with h | h
+    · exact h
+    · rcases hprod with h1 | h1 <;> simp [h] at h1
+  obtain ⟨hlen, hunf⟩ := hq.r3 hns hfin
+  have hu : cnt isU s.items = 0 := by rw [← hq.r5]; exact hunf
+  refine ⟨hlen, hunf, fun i p hp => ?_⟩
+  have hmem : p ∈ s.items := List.mem_of_getElem? hp
+  have h1 := cnt_zero hu p hmem
+  cases p with
+  | held => exact Or.inl rfl
+  | done => exact Or.inr ⟨rfl, (hl.hin i _ hp).1⟩
+  | queued => simp [isU] at h1
+  | run k => simp [isU] at h1
+  | failed k => simp [isU] at h1
 
 def runActsR (c : Cfg) (s : St) : List (Act ⊕ Nat) → Option St
   | [] => some s
@@ -580,6 +620,16 @@ example : ∃ s, runActsR ⟨3, 0, false, Fix.all⟩ (initSt 1)
       [.inl main, .inl prod, .inl prod, .inl getw, .inl prod, .inl prod, .inl stop, .inl (task 0 true), .inl main,
        .inl prod, .inl main, .inr 2, .inl getw, .inl (task 1 true)] = some s ∧
     s.pstate = .running ∧ s.items = [.done, .done, .held] ∧ proj 1 s.log = pre 1 := by
+  decide
+
+open Act in
+/-- non-vacuity of `unstopped_run_exhausts_source` for a second run: run 1 ends naturally, `process()` again, the new
+producer polls the source (which has nothing left), the run returns, no stop was requested, item 0 is done once.
+(With `Producer._running` never set again — seeded C13-13 — the producer of run 2 would not poll the source.) -/
+example : ∃ s, runActsR ⟨1, 0, false, Fix.all⟩ (initSt 1)
+      [.inl main, .inl prod, .inl prod, .inl getw, .inl prod, .inl (task 0 true), .inl prod, .inl prod, .inl getw,
+       .inl main, .inr 1, .inl prod, .inl prod, .inl getw, .inl main] = some s ∧
+    s.main = .returned ∧ s.stopReq = false ∧ s.srcCalls = 4 ∧ s.items = [.done] ∧ proj 0 s.log = pre 1 := by
   decide
 
 open Act in
